@@ -3,6 +3,7 @@ import G3D.Proofs.Polyhedron
 import G3D.Props.C04
 import G3D.Proofs.BodySoundSets
 import G3D.Proofs.K5
+import G3D.Proofs.K3
 /-! # C02 — flat primitive × ConvexPolygon / ConvexPolyhedron
     Full for the five flat × polygon pairs in both argument orders (kernels K0 and K1 are proved):
     the result denotes exactly f ∩ hull(vertices).  For polyhedra the proved direction is soundness of
@@ -53,5 +54,30 @@ theorem inter_flat_polyhedron_sound (f : Geo) (hf : f.WF) (B : Polyhedron) (hB :
     convex body itself -/
 theorem polyhedron_contains_iff_hull (B : Polyhedron) (hV : B.Valid) (x : V3) : B.contains x = true ↔ InHull B.verts x :=
   Polyhedron.contains_iff_hull B hV x
+
+
+/-! ### kernel K3 — flat × ConvexPolyhedron is EXACT -/
+/-- **C02, polyhedra**: for a polyhedron satisfying `ExactHyp` (faces Valid, vertices on the inner side of every face, closed
+    surface, NO two neighbouring faces coplanar, edge list = the face edges) and every well-formed Point, Line, Segment,
+    HalfLine, Plane: `intersection` in either argument order returns without error an object denoting exactly f ∩ K, with K
+    the convex hull of the vertices; a returned Segment is proper.  `exactHypB` decides the hypothesis per instance. -/
+theorem inter_flat_polyhedron_exact (f : Geo) (hf : f.WF) (B : Polyhedron) (hH : B.ExactHyp) :
+    ExactW (inter (.flat f) (.polyhedron B)) f.den (InHull B.verts) ∧
+    ExactW (inter (.polyhedron B) (.flat f)) f.den (InHull B.verts) := by
+  obtain ⟨hp, hl, hs, hh, ha⟩ := flat_polyhedron_exact_hull B hH
+  rw [Props.C04.inter_eq_ref, Props.C04.inter_eq_ref]
+  cases f with
+  | point p => exact ⟨hp p, hp p⟩
+  | line l => exact ⟨hl l hf, hl l hf⟩
+  | plane a => exact ⟨ha a hf, ha a hf⟩
+  | seg s => exact ⟨hs s hf, hs s hf⟩
+  | halfline h => exact ⟨hh h hf, hh h hf⟩
+
+theorem exact_hypothesis_decidable (B : Polyhedron) (h : B.exactHypB = true) : B.ExactHyp := Polyhedron.exactHyp_of_B B h
+
+/-- the hypothesis "no coplanar neighbouring faces" cannot be dropped: on the unit cube whose top face is split into two
+    coplanar triangles the Line handler returns only part of the intersection (the real library behaves identically) -/
+theorem coplanar_neighbours_break_exactness :
+    ¬ ExactB (interLinePolyhedron lineTop splitCubeE) lineTop.den (BodyDen splitCubeE) := splitCubeE_line_not_exact
 
 end G3D.Props.C02
